@@ -121,8 +121,18 @@ fn c07_history(rep: &mut Report, cfg: &DpCfg, scripts: Vec<Vec<Fault>>, absent_w
             })
             .collect();
         let class = if states.iter().any(|s| s.contains("Offline")) { "stuck-offline" } else { "stuck-in-bringup" };
+        // the joint state the first stuck pair sits in (master's peripheral state / slave's state)
+        let joint = (0..cfg.periphs.len())
+            .map(|i| {
+                let h = run.handles[i];
+                let p = run.dp().get_mut(h).verif_probe();
+                (p.state, format!("{:?}", run.slaves[i].core.borrow().state))
+            })
+            .find(|(m, s)| !(m == &"DataExchange" && s == "DataExch"))
+            .map(|(m, s)| format!("{}-{}", m, s))
+            .unwrap_or_else(|| "none".into());
         rep.violation(
-            format!("C07/not-recovered/{}", class),
+            format!("C07/not-recovered/{}/{}", class, joint),
             format!("{} DP cycles after the last fault the peripherals are still not all in data exchange (bound {} cycles): {:?}; {}", run.cycles - tf, k_bound, states, describe()),
         );
         return None;
